@@ -30,7 +30,8 @@ THEOREMS = ['C20_tcp_singleton', 'C20_abstract_singleton', 'C20_uds_singleton', 
             'C20_uds_retry_needs_timing', 'C20_startup_terminates', 'C20_idle_not_before', 'C20_idle_exact', 'C20_stop_waits',
             'C20_started_server_report_proceeds', 'C20_late_client_cold_starts', 'C20_not_serving_refuses',
             'C20_cut_connection_falls_back', 'C20_addresses_do_not_interfere', 'C20_lock_name_injective',
-            'C20_shared_lock_name_refuted', 'C20_exit_ends_connections_orderly']
+            'C20_shared_lock_name_refuted', 'C20_exit_ends_connections_orderly',
+            'C20_silent_connection_does_not_keep_alive']
 ASSUMPTIONS = [
     'kernel semantics as stated in Model/Startup.v: bind on a TCP port / abstract socket name is exclusive and the name is released when its owner exits; bind on a socket PATH fails iff the directory entry exists; unlink removes the entry but not the listening socket behind it; flock is exclusive and released at process exit',
     'bind+listen of one listener, and each of connect / unlink / flock / the start-up notification, are atomic steps',
@@ -981,6 +982,54 @@ def life_idle_late(binp, consts, kind, T, detect):
         w.close()
 
 
+def life_idle_silent(binp, consts, kind, T):
+    """A client that CONNECTS and stays silent must not keep an idle server alive: no request is received, so the idle
+    shutdown begins at T, and the open connection delays the exit by at most the cap.  One-sided, generous: the server
+    must be gone by T + cap + 30 s (and not before T).  Returns the arguments of life_check."""
+    w = World(kind, idle_s=T, tag='q')
+    vs = []
+    cap = consts['cap_s']
+    conn = None
+    try:
+        env = dict(w.env, SCCACHE_LOG='off', SCCACHE_ERROR_LOG=os.path.join(w.base, 'server.log'))
+        t0 = time.time()
+        st = subprocess.run([binp, '--start-server'], env=env, stdout=subprocess.PIPE, stderr=subprocess.PIPE, timeout=90)
+        t_up = time.time()
+        if st.returncode != 0:
+            vs.append('--start-server failed: ' + st.stderr.decode('utf-8', 'replace')[-200:])
+        try:
+            if kind == 'tcp':
+                conn = socket.create_connection(('127.0.0.1', int(w.env['SCCACHE_SERVER_PORT'])), timeout=10)
+            else:
+                conn = socket.socket(socket.AF_UNIX)
+                conn.connect(w.env['SCCACHE_SERVER_UDS'])
+        except OSError as e:
+            vs.append('could not open the silent connection: %r' % e)
+        t_conn = time.time()
+        limit = T + cap + 30
+        t_exit = wait_gone(w.cache, max(1.0, t_up + limit - time.time()))
+        if t_exit is None:
+            vs.append('a server that received NO request is still running %.0f s after it came up (idle timeout %d s, shutdown cap %d s): '
+                      'a connected but silent client keeps it alive' % (time.time() - t_up, T, cap))
+            observed = ['serving', 'none', 0]
+            t_exit = time.time()
+        else:
+            observed = ['terminated', 'idle', 1]
+            if t_exit - t0 < T:
+                vs.append('the server was gone %.2f s after it was started, before the idle period of %d s' % (t_exit - t0, T))
+        case = [T * 1000, cap * 1000,
+                [[b'tick', ms(t_conn - t0)], [b'accept', 1], [b'tick', max(0, T * 1000 - ms(t_conn - t0))], [b'poll'], [b'wake'],
+                 [b'tick', max(0, ms(t_exit - t0) - max(T * 1000, ms(t_conn - t0)))], [b'wake']]]
+        return ('idle-silent-connection-%s-T%d' % (kind, T), case, observed, vs)
+    finally:
+        if conn is not None:
+            try:
+                conn.close()
+            except OSError:
+                pass
+        w.close()
+
+
 # ------------------------------------------------------------------ connections cut INSIDE a frame (leg "cut")
 
 def bincode_started():
@@ -1187,6 +1236,16 @@ def extra(rep, known):
             late_box['tcp_cap_e'] = repr(e)
     tcp_cap_thread = threading.Thread(target=run_tcp_cap, daemon=True)
     tcp_cap_thread.start()
+
+    # connected-but-silent clients (one TCP, one Unix path) against idle servers, beside everything else
+    def run_silent(kind):
+        try:
+            late_box['silent_' + kind] = life_idle_silent(binp, rep.consts, kind, 2)
+        except Exception as e:
+            late_box['silent_' + kind + '_e'] = repr(e)
+    silent_threads = [threading.Thread(target=run_silent, args=(kd,), daemon=True) for kd in ('tcp', 'uds')]
+    for th in silent_threads:
+        th.start()
     for kind, k, stale, sp in spell + plan:
         ok, obs, case = do_race(rep, known, binp, kind, k, stale, spelling=sp)
         if not ok and rep.tier == 'quick' and sum(1 for v in rep.violations) >= 3:
@@ -1216,6 +1275,12 @@ def extra(rep, known):
     life_idle(rep, binp, 'uds', 2)
     life_stop(rep, binp, 'tcp', 3, late_client=True)
     late_thread.join(120)
+    for th, kd in zip(silent_threads, ('tcp', 'uds')):
+        th.join(120)
+        if ('silent_' + kd) in late_box:
+            life_check(rep, *late_box['silent_' + kd])
+        else:
+            rep.oblige('life: silent-connection idle leg (%s) ran' % kd, False, late_box.get('silent_' + kd + '_e', 'did not finish within 120 s'))
     tcp_cap_thread.join(180)
     if not late_box.get('tcp_cap'):
         rep.oblige('life: compile outlasting the cap on a TCP address ran', False, late_box.get('tcp_cap_e', 'did not finish within 180 s'))
@@ -1280,12 +1345,14 @@ def check(tier, seed, replay=None):
         # the scenario is named in front of the recorded failure text: <scenario>: <what failed>
         name = (data.get('what_fails') or data.get('disagreements', [{}])[0].get('detail', '')).split(':')[0]
         binp = pipeline.repo_bin('sccache')
-        m = re.match(r'(idle-late-request|idle-inflight|idle|stop)-(tcp|uds|abstract)-?(.*)$', name)
+        m = re.match(r'(idle-late-request|idle-inflight|idle-silent-connection|idle|stop)-(tcp|uds|abstract)-?(.*)$', name)
         if m:
             what, kind, rest = m.groups()
             nums = [int(x) for x in re.findall(r'\d+', rest)]
             if what == 'idle-late-request':
                 life_check(rep, *life_idle_late(binp, rep.consts, kind, nums[0], nums[1]))
+            elif what == 'idle-silent-connection':
+                life_check(rep, *life_idle_silent(binp, rep.consts, kind, nums[0]))
             elif what == 'idle-inflight':
                 life_idle_inflight(rep, binp, kind, nums[0], nums[1])
             elif what == 'idle':
